@@ -50,8 +50,9 @@ def selftest():
 
 def spaces(tier):
     out = []
+    fn_ok = cs.fn_api_ok()
     if tier == 'quick':
-        out += [cs.fn_space(L) for L in range(2, 10)]
+        out += [cs.fn_space(L) for L in range(2, 10) if fn_ok]
         for n in (2, 3, 4):
             for combo in cs.COMBOS[:4]:
                 out.append(cs.db_space(n, combo, 2))
@@ -60,7 +61,7 @@ def spaces(tier):
         for n in (2, 3):
             out.append(cs.db_space(n, cs.COMBOS[n % 4], 1, cli=True))
     else:
-        out += [cs.fn_space(L) for L in range(2, 12)]
+        out += [cs.fn_space(L) for L in range(2, 12) if fn_ok]
         for n in (2, 3, 4, 5):
             for combo in cs.COMBOS:
                 out.append(cs.db_space(n, combo, 3))
